@@ -13,6 +13,7 @@ import Thanos.Model.Downsample
     chunks    = `-` | chunk|chunk|…
     ds.raw  <mode> <r> <nc> <samples>                 -> chunks | panic          (mode: auto | man; ignored here)
     ds.read <r> <nc> <samples>                        -> count;sum;min;max;counter lists read through the querier
+    ds.readr <r> <nc> <mint> <maxt> <samples>         -> the same through the querier's series bounded to [mint, maxt]
     ds.aggr <mode> <r1> <nc1> <r2> <nc2> <samples>    -> chunks | invalid-range | hang | panic
     ds.ctr  <r1> <nc1> <r2> <nc2> <samples>           -> <level-1 counter read-back>;<level-2 counter read-back> | …
     ds.apply <list>|<list>|…                          -> <read-back list>           (ApplyCounterResetsSeriesIterator)
@@ -97,6 +98,14 @@ def showAggrRes : AggrRes → String
     `dsAggrBatchSize`, obligation `C38_source_facts` in Props/C38.lean) -/
 def clampNow : Bool := aggrClampNow
 
+def readBackR (mint maxt : Int) (cs : List Chunk) : String :=
+  let cnt := boundedDrain mint maxt (chunkSeriesIter (cs.map (·.count)))
+  let sum := boundedDrain mint maxt (chunkSeriesIter (cs.map (·.sum)))
+  let mn := boundedDrain mint maxt (chunkSeriesIter (cs.map (·.min)))
+  let mx := boundedDrain mint maxt (chunkSeriesIter (cs.map (·.max)))
+  let ctr := boundedDrain mint maxt (applyResets (cs.map (·.counter))).1
+  s!"{showPts cnt};{showPts sum};{showPts mn};{showPts mx};{showPts ctr}"
+
 def readBack (cs : List Chunk) : String :=
   let cnt := chunkSeriesIter (cs.map (·.count))
   let sum := chunkSeriesIter (cs.map (·.sum))
@@ -120,6 +129,13 @@ def handleDs : List String → String
       | some cs => readBack cs
       | none => "panic"
     | _, _, _ => "bad-op"
+  | ["ds.readr", r, nc, mint, maxt, ss] =>
+    match parseInt? r, parseNat? nc, parseInt? mint, parseInt? maxt, parseRaw ss with
+    | some r, some nc, some mint, some maxt, some data =>
+      match downsampleRaw data r nc with
+      | some cs => readBackR mint maxt cs
+      | none => "panic"
+    | _, _, _, _, _ => "bad-op"
   | ["ds.aggr", _, r1, nc1, r2, nc2, ss] =>
     match parseInt? r1, parseNat? nc1, parseInt? r2, parseNat? nc2, parseRaw ss with
     | some r1, some nc1, some r2, some nc2, some data =>
